@@ -287,9 +287,10 @@ class ParamWrites:
     Used only to keep the automatically generated loop frames small (a slot whose address is merely read by a callee is not
     havocked); an omission would make DFCC's frame check fail, never a proof pass."""
     VAL = r'(%"[^"]*"|%[-a-zA-Z$._0-9]+)'
-    def __init__(s, m, opaque):
-        s.m = m; s.opaque = opaque; s.memo = {}; s.active = set()
+    def __init__(s, m, opaque, declared=None):
+        s.m = m; s.opaque = opaque; s.memo = {}; s.active = set(); s.declared = declared or {}
     def writes(s, f):
+        if f in s.declared: return set(s.declared[f])      # unit.json "stub_writes": parameters a contract stub may write through
         if f in s.memo: return s.memo[f]
         fn = s.m.funcs.get(f)
         if fn is None or f in s.opaque: return None          # unknown body: may write through everything
@@ -1058,7 +1059,7 @@ def translate(path, cfg):
     em = Emitter(m)
     # callees whose body the proofs do not see (stubs, library functions off the verbatim list) may write through any pointer
     opaque = set(stubs) | set(f for f in m.funcs if STD_RE.search(f) and not any(v.search(f) for v in verb))
-    opts['_pw'] = ParamWrites(m, opaque)
+    opts['_pw'] = ParamWrites(m, opaque, cfg.get('stub_writes'))
     todo = list(reversed(roots)); done = collections.OrderedDict()
     protos = collections.OrderedDict()
     all_globals = set()
